@@ -13,7 +13,7 @@ from pw_verif.snap import Malformed
 
 PROP = "C08"
 LEVEL = "exploration"
-BUDGET = {"quick": 560, "thorough": 7000}
+BUDGET = {"quick": 400, "thorough": 6000}
 MIN_PER_SHARD = 10
 RULE = (
     "Two generated families. (A) direct: worlds/layouts as in C01 with complex vectors and pure / mixed / "
